@@ -8,7 +8,9 @@ BASE_NOTE = ("Held only on the executions listed in the evidence file. Trusted b
              "the reference codec vf/refcodec.py (written from RFC 6733, shares no code with the library)")
 NODE_NOTE = (BASE_NOTE + ", the simnet shims (vf/simnet: socketpair-backed sockets, gated select, virtual clock, "
              "scaled queue time-outs) that replace the kernel network and the clock, and the reference models "
-             "in vf/oracles")
+             "in the check modules; a stand-in for the optional `sctp` module takes the node through its SCTP "
+             "branches (it is not pysctp); where stated, the outcome of random.randint inside "
+             "diameter.node._helpers is scripted (an outcome the real generator can produce)")
 
 CHECKS = {
     "C01": dict(cat="exploration", tech="runtime contracts on the real AVP codec functions + differential "
@@ -107,7 +109,9 @@ CHECKS = {
                      "4 callbacks, 1..4 concurrent callers; request frames are attributed by Session-Id; the oracle "
                      "checks the target socket, the offered list and honoured choice, NotRoutable, hop-by-hop ids, the "
                      "answer returned to each caller and which application's handler sees late, duplicate and unknown "
-                     "answers.",
+                     "answers (also answers bearing only one of the two identifiers). Peers holding two connections "
+                     "(one of them closed or disconnecting) and, in a fifth of the cases, all connections drawing the "
+                     "same hop-by-hop start value (scripted RNG) are part of the configurations.",
                 ref="4 C10", note=NODE_NOTE + "; time-outs ordered logically (late answers withheld until the caller "
                 "returned); configurations avoid the configured-vs-default ambiguity of the statement."),
     "C11": dict(cat="exploration", tech="lockstep node harness on a virtual clock; timer model (must / must-not / "
@@ -187,7 +191,10 @@ CHECKS = {
                      "SequenceGenerator / SessionGenerator, start values mid, MAX-2, MAX-1, MAX (the evidence says per "
                      "configuration whether the space was exhausted); 10^5 successive draws, wrap to 1, all 4096 "
                      "start-time patterns of the end-to-end generator, Node initialisation on the virtual clock and "
-                     "the session-id format for 2000 counters.",
+                     "the session-id format for 2000 counters. Node level: with the random start values of a "
+                     "connection's hop-by-hop generator and the node's end-to-end generator scripted next to each "
+                     "other (-6..+6), every identifier the node puts on the wire (application requests, watchdog "
+                     "requests) is compared.",
                 ref="4 C16", note=BASE_NOTE + "; line-boundary preemption is assumed possible (section 1.4 of "
                 "DESIGN.md); the scheduler's own locks replace the generator's lock instances."),
     "C15": dict(cat="exploration", tech="line-gated deterministic scheduler over the real queueing threads, the "
